@@ -24,7 +24,14 @@ MIN_COVERED = {'quick': 3500, 'thorough': 4000}
 
 def kernels(tier, seed):
     archs = gen.ALL_ARCHS + (['emu128', 'emu256'] if tier == 'thorough' else [])
-    return K.c04(archs)
+    ks = K.c04(archs)
+    # insert<I>: lane I receives the scalar (every bit pattern), every other lane keeps its contents (index-level spec shared with C05)
+    for arch in gen.ALL_ARCHS:
+        for ty in gen.ATYPES:
+            n = lanes(ty, arch)
+            for I in (range(n) if tier == 'thorough' else sorted({0, 1, n // 2, n - 1})):
+                ks.append(K.mk('C04', 'insert', 'vT', 'v', 'xsimd::insert(a, b, xsimd::index<%d>())' % I, ty, arch, variant=str(I), meta={'I': I}))
+    return ks
 
 
 def regbytes(k):
@@ -135,6 +142,9 @@ def align_replay():
 
 
 def obligations(run):
+    if run.k.op == 'insert':
+        from . import c05
+        return c05.obligations(run)
     k = run.k; op = k.op
     w = TYPES[k.ty][1]; n = lanes(k.ty, k.arch); sz = w // 8
     D = run.desc
